@@ -304,6 +304,8 @@ void MasterMS<Scalar>::init_mms(const std::string& my_name,
   std::string mapped_name = masa_name;
   MASA::masa_map(&mapped_name);
 
+  manufactured_solution<Scalar>* match = NULL;
+
   for (unsigned int i=0; i != anim.size(); ++i)
     {
       std::string name;
@@ -313,13 +315,24 @@ void MasterMS<Scalar>::init_mms(const std::string& my_name,
           std::cout << "MASA FATAL ERROR:: manufactured solution has no name!\n";
           masa_exit(1);
         }
-      if (name == mapped_name)
+      if (match == NULL && name == mapped_name)
+        match = anim[i];   // keep this one, it will be owned by the map
+      else
+        delete anim[i];    // every other candidate is released
+    }
+
+  if (match != NULL)
+    {
+      typename std::map<std::string, manufactured_solution<Scalar> *>::iterator it = _master_map.find(my_name);
+      if (it != _master_map.end())
         {
-          _master_map[my_name] = _master_pointer = anim[i];
-          return;
+          delete it->second; // re-initialising a handle replaces (and releases) its previous instance
+          it->second = match;
         }
       else
-        delete anim[i];
+        _master_map[my_name] = match;
+      _master_pointer = match;
+      return;
     }
 
   std::cout << "MASA FATAL ERROR:: no manufactured solution named " << masa_name << " found!\n";
